@@ -329,8 +329,13 @@ def M_duplicate_header(rng, form):
 
 
 def M_spaces_in_multi_choice(rng, form):
-    rows_of(form).append({"type": "select_multiple sp_list", "name": "sp_x", "label": "S"})
+    # the list may be shared: other kinds of select over it (where a space is harmless) before or after the select_multiple
+    others = [{"type": f"{rng.choice(['select_one', 'rank', 'select_one'])} sp_list", "name": f"sp_o{j}", "label": "O"} for j in range(rng.choice([0, 0, 1, 2]))]
+    k = rng.randint(0, len(others))
+    rows_of(form).extend(others[:k] + [{"type": "select_multiple sp_list", "name": "sp_x", "label": "S"}] + others[k:])
     form.setdefault("choices", []).append({"list_name": "sp_list", "name": "a b", "label": "A"})
+    if rng.random() < 0.5:
+        form["choices"].append({"list_name": "sp_list", "name": "c", "label": "C"})
     return {"kind": r"Choice names with spaces cannot be added to multiple choice selects", "row": None, "subject": "a b"}
 
 
